@@ -20,7 +20,14 @@ impl FlattenedJson {
     /// Create a `FlattenedJson` from `Raw`.
     pub fn from_raw<T>(raw: &Raw<T>) -> Self {
         let mut s = Self { map: BTreeMap::new() };
-        s.flatten_value(to_json_value(raw).unwrap(), "".into());
+
+        // `Raw` accepts JSON that is nested more deeply than what can be deserialized to a
+        // `JsonValue`. No condition can match on such an event.
+        match to_json_value(raw) {
+            Ok(value) => s.flatten_value(value, "".into()),
+            Err(error) => warn!("Failed to flatten JSON: {error}"),
+        }
+
         s
     }
 
